@@ -395,6 +395,35 @@ fn steered_histories(rng: &mut Rng) -> Vec<Vec<Op>> {
 }
 
 /// C04 / C10 (retention) / C19 (empty add): long random histories over small alphabets
+/// thorough tier of C04 only: one content under 130 003 consecutive IDs (a single directory entry with a six-digit run
+/// length), a different tile before and after it; saved, reopened through the other API, counted, looked up around every
+/// power of two and at both ends.  (TLC expands the run quadratically: about a quarter of an hour.)
+pub fn drive_longrun(seed: u64, out: &mut Out) {
+    let mut rng = Rng::new(seed ^ 0x4c52);
+    let mut em = Emitter::new();
+    let run = 130_003u64;
+    let c = vec![0x5A; 33];
+    let mut tiles: Vec<(u64, Vec<u8>)> = vec![(2, vec![1, 2, 3, 4])];
+    tiles.extend((0..run).map(|i| (1000 + i, c.clone())));
+    tiles.push((1000 + run, vec![9, 9]));
+    let api = (seed % 2) as u8;
+    let mut set = Settings::random(&mut rng, 2);
+    set.ic = 2;
+    let mut ops = vec![Op::New { tt: set.tt, tc: set.tc, api }, Op::Set(set), Op::Bulk(tiles), Op::Save, Op::Reopen { api: 1 - api }, Op::Count];
+    let mut probes: Vec<u64> = vec![2, 999, 1000, 1001, 1000 + run - 2, 1000 + run - 1, 1000 + run, 1000 + run + 1];
+    for k in 10..17 {
+        probes.extend([1000 + (1u64 << k) - 1, 1000 + (1u64 << k)]);
+    }
+    for t in [100_000u64, 110_000, 120_000, 125_000] {
+        probes.extend([1000 + t - 1, 1000 + t, 1000 + t + 1]);
+    }
+    for id in probes {
+        ops.push(Op::Get { id });
+    }
+    ops.push(Op::Reset);
+    em.emit(&exec(&ops, false), out);
+}
+
 pub fn drive_history(seed: u64, tier: &str, out: &mut Out) {
     let mut rng = Rng::new(seed ^ 0x5354);
     let (segments, ops_per) = if tier == "thorough" { (40, 3000) } else { (14, 700) };
